@@ -202,7 +202,7 @@ exprassign(struct expr *e, struct type *t)
 			error(&tok.loc, "assignment to bool must be from arithmetic, pointer, or nullptr_t type");
 		break;
 	case TYPEPOINTER:
-		if (nullpointer(e))
+		if (nullpointer(eval(e)))
 			break;
 		if (et->kind != TYPEPOINTER)
 			error(&tok.loc, "assignment to pointer must be from pointer or null pointer constant");
